@@ -91,9 +91,9 @@ def main():
         except (OSError, ValueError) as e:
             R.broke("replay file unreadable", str(e))
             R.finish()
-    run_tbls = replay is None or "s" in replay or "secret" in replay or "calls" in replay
+    run_tbls = replay is None or "s" in replay or "secret" in replay or "calls" in replay or "gcalls" in replay
     run_vsr = replay is None or "dv" in replay
-    if replay is not None and not (("s" in replay) or ("calls" in replay) or ("dv" in replay)):
+    if replay is not None and not (("s" in replay) or ("calls" in replay) or ("gcalls" in replay) or ("dv" in replay)):
         # replay of a theorem/correspondence break: run the whole check
         os.environ.pop("VERIF_REPLAY", None)
         run_tbls = run_vsr = True
@@ -129,14 +129,15 @@ def main():
         evaluate(R, "rec", "rec_bad", "list (Z * Z) * Z", "recover_ok",
                  [(c["id"], "(%s, %s)" % ("[" + "; ".join("(%d, %s)" % (i, v) for i, v in zip(c["ids"], c["vals"])) + "]", c["result"])) for c in rec],
                  "RecoverSecret differs from recoverZ", {c["id"]: c for c in rec})
-        evaluations += len(lag) + len(sp) + len(se) + len(rec) + o.get("group_evals", 0) + o.get("history_calls", 0)
+        evaluations += len(lag) + len(sp) + len(se) + len(rec) + o.get("group_evals", 0) + o.get("history_calls", 0) + o.get("failure_history_calls", 0)
         dist.update(o.get("dist") or {})
         dist["group_kinds"] = o.get("group_kinds")
         dist["degenerate_substitutions_expected_to_verify"] = o.get("degenerate_expected_verifies")
         dist["history_independence"] = {"sequences": o.get("history_blocks"), "calls": o.get("history_calls"), "by": o.get("history_stats")}
+        dist["history_independence_after_failing_calls"] = {"sequences": o.get("failure_history_sequences"), "calls": o.get("failure_history_calls"), "by": o.get("failure_history_stats")}
         dist["model_comparisons"] = {"lagrange_sets": len(lag), "lagrange_coefficients": sum(len(c["ids"]) for c in lag),
                                      "split_insecure": len(sp), "split_csprng": len(se), "recover": len(rec)}
-        R.coverage["distinct_nontrivial"] += o.get("distinct_scenarios", 0) + len(lag) + len(sp) + len(se) + len(rec) + o.get("history_blocks", 0)
+        R.coverage["distinct_nontrivial"] += o.get("distinct_scenarios", 0) + len(lag) + len(sp) + len(se) + len(rec) + o.get("history_blocks", 0) + o.get("failure_history_sequences", 0)
         R.add_samples(o.get("samples") or [], 2)
         if lag:
             R.add_samples([lag[len(lag) // 2]], 1)
@@ -172,6 +173,10 @@ def main():
                           "messages have lengths 0, 1, 31, 32, 33, 64, 96 bytes (cycled), the 'other' message of a substitution is a related one (same 32-byte prefix and another tail, truncated, zero-extended, trailing zeros stripped, same tail and another prefix). "
                           "history independence: stateful call sequences against the one process-wide tbls implementation (each Verify / VerifyAggregate call is one evaluation, a sequence counts once as distinct): after every successful verification "
                           "(plain, threshold-aggregated group signature, FastAggregateVerify) the same signature is re-offered for related messages and related public keys / key sets, wrong calls are repeated, valid calls re-checked; every verdict must be the pure function's. "
+                          "failing calls: for each entry point (RecoverPubkey, RecoverSecret, ThresholdAggregate, Verify, VerifyAggregate, ThresholdSplit, ThresholdSplitInsecure) a failing call "
+                          "(malformed G1/G2 point or scalar >= r at each position next to valid entries of another key set under colliding and non-colliding ids, id 0, negative id, empty map, bad threshold, rejecting reader) "
+                          "is run back to back with honest calls on one goroutine, >= 64 times per template, in both orders and in bursts (some sequences under GOMAXPROCS=1); every honest result must equal the independently recomputed value "
+                          "(big.Int Lagrange / polynomial evaluation), every failing call must repeat its outcome. "
                           "model comparisons: one per id set (Lagrange coefficients, all subsets of 1..7 quick / 1..10 thorough), per scripted split, per CSPRNG split, per sampled RecoverSecret (also below threshold), "
                           "per verifySharesReconstruct call; every one is a distinct input")
     R.coverage["input_distribution"] = dist
